@@ -22,6 +22,25 @@ emulator.  Streams:
   (b'') what lies at the output path before the run: nothing, a short file, a 300 kB file, an earlier SKR, an earlier SKR
       longer than the new one — under a successful, a declined, a faulted and a refused-after-signing run;
       a schema whose slots are LISTED out of order in the configuration (the slot number decides);
+  (f) FILE-NAME FAULTS (`file_fault_stream`): for every file the entry point takes — previous SKR, KSR, output path, the
+      configuration file — the name handed over by the configuration, by the command line, or by one of them while the
+      other names nothing / the right file / a stale (other, valid) file, is a name that does not lead to a usable file: a
+      typo beside the right file, a directory, an empty file, a file without read permission, a dangling symbolic link, a
+      path through a regular file (output: an existing directory, a missing directory, a path through a regular file, a
+      file without write permission), through ksrsigner() and through main().  The property: the file that is ASKED FOR
+      (command line before configuration) and cannot be loaded ends the run before the signing stage — unsuccessful,
+      no private-key operation, not one token operation, output path untouched; an output that cannot be written ends
+      the run unsuccessfully and nothing is left at either output name; a broken name that the command line overrides
+      either does not matter (same SKR as without it) or is refused as a bad configuration, never anything else.  The
+      model's `pickFile` is compared with the precedence the harness applies (driver op `pick_file`);
+  (h) the request id re-used ALONE (fresh bundle ids, timeline continued) and a bundle id re-used alone, each with the
+      serial of the previous SKR, another serial and serial 0: single-rule chain violations whatever the other header
+      fields say;
+  (t) TEXT (`text_stream`): honest ceremonies, their honest successors (previous SKR = the file just written, named in
+      the configuration / on the command line / via main()), a replayed request id, a declined and a faulted run, spelled
+      with non-ASCII but legal text in everything that is copied into the SKR — KSK labels in the configuration and
+      on the token (CKA_LABEL), ZSK key identifiers, request and bundle ids — in four profiles: Latin-1 letters, other
+      scripts of the basic plane, characters beyond the basic plane, characters a normalising layer would change;
   (c) exit statuses through main(), file names from the configuration and from the command line.
 Oracle (the property): the output path changes ONLY on a successful run, and then to exactly the SKR of the
 fault-free ceremony, whole file (RSA signatures are deterministic); otherwise it keeps its previous bytes (or stays
@@ -30,16 +49,20 @@ C_Sign is issued.  An injected error return of a token operation (object search,
 set-up) and every bad signature must end the run unsuccessfully wherever the key may also be found.  Every SKR a
 successful run leaves behind must (1) be accepted by the repository's own `load_skr` (full validate_response) and
 (2) by the independent judge `ceremony_run.skr_problems` (ElementTree + dnspython over exactly the published keys of
-each bundle, schema roles by slot number, request echoed).
+each bundle, schema roles by slot number, request echoed), and (3) read by the repository's loader as the very document
+a standard XML parser reads (`ceremony_run.reader_mismatch`: what the next ceremony will see is what was written).
 The Lean model (`ksrsigner` op) replays each run's token log and must predict result, exit status, events
 (display / prompt / the single write and its content — compared with the whole file as ElementTree reads it) and the
-complete token-operation sequence.  Where two keys share an identifier in one key set the model declines
+complete token-operation sequence; the bytes at the output path must be EXACTLY the UTF-8 text the model's writer
+(`skrToXml`, C11's model, driver kskm_driver_pkge) produces for the SKR the ceremony model writes (members of sets listed
+in the file's order).  Where two keys share an identifier in one key set the model declines
 (`KeysToSign.get` depends on set iteration order): those runs are judged by the oracle alone and counted as unsupported.
 """
 
 from __future__ import annotations
 
 import copy
+import os
 from datetime import timedelta
 from pathlib import Path
 from typing import Any
@@ -211,6 +234,9 @@ class Judge:
                 res.violation("run reported success but nothing was written to the output path", case, key="success-no-write:" + key, outcome=out)
             if o["file_after"] != pre:
                 res.violation("an existing output file was not left unchanged by an unsuccessful run", case, key="clobbered:" + key, outcome=out)
+            st = o.get("output_state")
+            if st is not None and st[0] != st[1]:
+                res.violation("what the output name leads to was changed by an unsuccessful run", case, key="clobbered-state:" + key, outcome=out, before=st[0][0], after=st[1][0])
         if o.get("stray_output"):
             res.violation("something was written to the configured output path although the command line names another one", case, key="stray-output:" + key, outcome=out)
         if "exit" in o and ((o["exit"] == 0) != success or (not success and o["exit"] == 0)):
@@ -247,7 +273,11 @@ class Judge:
         bad = R.skr_problems(o["file_after"], num_bundles=n, roles=R.roles_of(sc) if sc is not None else None, request_xml=ksr_xml if ksr_xml is not None else (C.request_to_xml(sc.request()) if sc is not None else None))
         if bad:
             res.violation("the SKR written by a successful run is rejected by the independent validator", case, key="independent:" + key, problems=bad[:6])
-        res.bump("written SKR judged (load_skr + ElementTree/dnspython)")
+        if "ok" in rl and not (bad and bad[0].startswith("not one well-formed")):
+            d = R.reader_mismatch(o["file_after"], canon_or_none(o["file_after"]))
+            if d:
+                res.violation("the SKR written by a successful run reads differently with the repository's loader than with a standard XML parser (the next ceremony will not see what was written)", case, key="reader:" + key, first_difference=d)
+        res.bump("written SKR judged (load_skr + ElementTree/dnspython + loader reading == XML reading)")
 
 
 def fault_must_fail(op: str, kind: str) -> bool:
@@ -410,14 +440,25 @@ def run(tier: str, driver_ok: bool) -> Result:
                 foreign = successor(sc, n)
                 foreign.token_edits = [lambda w: swap_key(w, "Kka", K.rsa_keys(2048, 65537)[4])]
                 chain.append(("prev-signer-not-ours", foreign, {}))
+                # (h) ONE thing of the previous ceremony re-used, every other header field varied: the request id alone (fresh
+                # bundle ids, honest keys, timeline continued), a bundle id alone; serial as in the previous SKR (1), another, 0
+                fresh = successor(sc, n)
+                fresh_xml = C.request_to_xml(fresh.request())
+                for tag, serial in (("serial-of-previous-skr", None), ("other-serial", 2), ("serial-0", 0), ("serial-2^31", 2**31)):
+                    chain.append((f"request-id-reused-alone:{tag}", fresh, {"ksr_xml": R.rewrite_header(fresh_xml, id="req-1", serial=serial)}))
+                    if serial is not None:
+                        chain.append((f"bundle-id-reused-alone:{tag}", fresh, {"ksr_xml": R.rewrite_header(R.rewrite_bundle_id(fresh_xml, n - 1, "req-1-bundle-1"), serial=serial)}))
+                        chain.append((f"replayed-id:{tag}", replay, {"ksr_xml": R.rewrite_header(C.request_to_xml(replay.request()), serial=serial)}))
                 for gate, scen, kw in chain:
                     for mode in R.PREV_MODES:
                         # "both": the configuration names another (valid) SKR — the one of the NEXT quarter; the command line wins
                         src = {"config": {"prev_xml": prevx}, "cli": {"prev_cli_xml": prevx}, "both": {"prev_cli_xml": prevx, "prev_xml": (baseline2 or baseline).decode()}}[mode]
                         o = R.run_ceremony(scen, work, answer="Yes", **src, **kw)
                         case = {"stream": "gate", "n": n, "gate": "chain:" + gate, "previous_skr_named_in": mode}
-                        j.observe(o, case, None, sc=scen, expect_no_sign=True, expect_success=False)
+                        j.observe(o, case, None, sc=scen, ksr_xml=kw.get("ksr_xml"), expect_no_sign=True, expect_success=False)
                         res.bump("previous-skr-source:" + mode)
+                        if "-alone:" in gate or gate.startswith("replayed-id:"):
+                            res.bump("header-variation:" + gate.split(":")[0])
                 # a forged previous SKR (one signature bit flipped) is refused by load_skr
                 jx = prevx.index("<SignatureData>") + 30
                 forged = prevx[:jx] + ("A" if prevx[jx] != "A" else "B") + prevx[jx + 1 :]
@@ -467,49 +508,68 @@ def run(tier: str, driver_ok: bool) -> Result:
         collision_stream(j, r, work, tier)
         safety_stream(j, r, work, tier)
         listing_stream(j, r, work, tier)
+        file_fault_stream(j, r, work, tier)
+        text_stream(j, r, work, tier)
         # ---- model ---------------------------------------------------------------------------------------------
         if driver_ok:
-            with_line = [x for x in runs if "line" in x]
-            outs = lib.run_driver([x["line"] for x in with_line], exe=DRIVER)
-            for x, m in zip(with_line, outs):
-                if "driver_error" in m:
-                    res.disagreement("ksrsigner: driver error", x["case"], x["outcome"], m)
-                    continue
-                if lib.is_unsupported(m["result"]):
-                    if x.get("model_may_decline"):
-                        # two keys under one identifier in a key set: KeysToSign.get depends on set iteration order (Kskm.ktsGet declines)
-                        res.unsupported += 1
-                        continue
-                    # nothing here is outside the modelled domain: the model left the recorded run (replay / oracle miss)
-                    res.disagreement("ksrsigner: the model could not follow the implementation's run (it expects other token operations / oracle questions)", x["case"], x["outcome"], m["result"], log_difference=C.first_log_difference(x["log"], m["log"]))
-                    continue
-                impl = x["outcome"]
-                if "exit" in impl:  # main(): compare exit statuses
-                    if m["exit"] != x["exit"]:
-                        res.disagreement("ksrsigner: model exit status != implementation", x["case"], impl, m["result"], exits=[x["exit"], m["exit"]])
-                elif not lib.same_outcome(impl, m["result"]):
-                    res.disagreement("ksrsigner: model result != implementation", x["case"], impl, m["result"])
-                d = C.first_log_difference(x["log"], m["log"])
-                if d is not None:
-                    res.disagreement("ksrsigner: model issues different token operations", x["case"], impl, m["result"], log_difference=d)
-                writes = [e["write"] for e in m["events"] if isinstance(e, dict)]
-                if bool(writes) != bool(x["written"]):
-                    res.disagreement("ksrsigner: model and implementation disagree on whether an SKR is written", x["case"], impl, m["result"])
-                elif writes and S.response_sorted_j(writes[0]) != canon_or_none(x["file_after"]):
-                    res.disagreement("ksrsigner: model writes a different SKR", x["case"], impl, m["result"])
-                elif writes:
-                    # the WHOLE file as an independent XML parser reads it, bundles in document order (not a prefix of the file)
-                    try:
-                        whole = S.response_sorted_j(R.skr_document(x["file_after"]))
-                    except Exception as exc:  # noqa: BLE001
-                        whole = {"unreadable": f"{type(exc).__name__}: {exc}"[:200]}
-                    if S.response_sorted_j(writes[0]) != whole:
-                        res.disagreement("ksrsigner: the file at the output path is not (exactly) the SKR the model writes", x["case"], impl, m["result"], file=whole if "unreadable" in whole else "differs")
-                if ("prompt" in m["events"]) != (x["prompt"].calls > 0):
-                    res.disagreement("ksrsigner: model and implementation disagree on prompting", x["case"], impl, m["result"])
+            compare_with_model(res, runs)
     finally:
         R.cleanup(work)
     return res
+
+
+def compare_with_model(res: Result, runs: list[dict[str, Any]]) -> None:
+    """Every recorded run against the Lean model (`ksrsigner` op), the written bytes against the model's writer, the
+    precedence of file names against `pickFile`."""
+    with_line = [x for x in runs if "line" in x]
+    outs = lib.run_driver([x["line"] for x in with_line], exe=DRIVER)
+    to_predict: list[tuple[dict[str, Any], dict[str, Any]]] = []
+    for x, m in zip(with_line, outs):
+        if "driver_error" in m:
+            res.disagreement("ksrsigner: driver error", x["case"], x["outcome"], m)
+            continue
+        if lib.is_unsupported(m["result"]):
+            if x.get("model_may_decline"):
+                # two keys under one identifier in a key set: KeysToSign.get depends on set iteration order (Kskm.ktsGet declines)
+                res.unsupported += 1
+                continue
+            # nothing here is outside the modelled domain: the model left the recorded run (replay / oracle miss)
+            res.disagreement("ksrsigner: the model could not follow the implementation's run (it expects other token operations / oracle questions)", x["case"], x["outcome"], m["result"], log_difference=C.first_log_difference(x["log"], m["log"]))
+            continue
+        impl = x["outcome"]
+        if "exit" in impl:  # main(): compare exit statuses
+            if m["exit"] != x["exit"]:
+                res.disagreement("ksrsigner: model exit status != implementation", x["case"], impl, m["result"], exits=[x["exit"], m["exit"]])
+        elif not lib.same_outcome(impl, m["result"]):
+            res.disagreement("ksrsigner: model result != implementation", x["case"], impl, m["result"])
+        d = C.first_log_difference(x["log"], m["log"])
+        if d is not None:
+            res.disagreement("ksrsigner: model issues different token operations", x["case"], impl, m["result"], log_difference=d)
+        writes = [e["write"] for e in m["events"] if isinstance(e, dict)]
+        if bool(writes) != bool(x["written"]):
+            res.disagreement("ksrsigner: model and implementation disagree on whether an SKR is written", x["case"], impl, m["result"])
+        elif writes and S.response_sorted_j(writes[0]) != canon_or_none(x["file_after"]):
+            res.disagreement("ksrsigner: model writes a different SKR", x["case"], impl, m["result"])
+        elif writes:
+            # the WHOLE file as an independent XML parser reads it, bundles in document order (not a prefix of the file)
+            try:
+                whole = S.response_sorted_j(R.skr_document(x["file_after"]))
+            except Exception as exc:  # noqa: BLE001
+                whole = {"unreadable": f"{type(exc).__name__}: {exc}"[:200]}
+            if S.response_sorted_j(writes[0]) != whole:
+                res.disagreement("ksrsigner: the file at the output path is not (exactly) the SKR the model writes", x["case"], impl, m["result"], file=whole if "unreadable" in whole else "differs")
+        if ("prompt" in m["events"]) != (x["prompt"].calls > 0):
+            res.disagreement("ksrsigner: model and implementation disagree on prompting", x["case"], impl, m["result"])
+        if writes and x["written"]:
+            to_predict.append((x, writes[0]))
+    # the bytes at the output path against the model's WRITER (C11's skrToXml) applied to the SKR the ceremony model writes
+    R.compare_written_bytes(res, [(x["case"], x["outcome"], w, x["file_after"]) for x, w in to_predict])
+    # the precedence of file names the harness applied (and told the model the outcome of) against the model's pickFile
+    pairs = sorted({(nm[a], nm[b]) for x in runs if (nm := x.get("names")) for a, b in (("prev_cli", "prev_cfg"), ("ksr_cli", "ksr_cfg"), ("out_cli", "out_cfg"))}, key=str)
+    for (cli, cfg), m in zip(pairs, lib.run_driver([{"op": "pick_file", "cli": cli, "cfg": cfg} for cli, cfg in pairs], exe=DRIVER)):
+        res.bump("pick_file: harness precedence == model pickFile")
+        if m != R.picked(cli, cfg):
+            res.disagreement("pickFile: the model picks another file name than the documented precedence", {"cli": cli, "cfg": cfg}, R.picked(cli, cfg), m)
 
 
 def redundant_stream(j: Judge, r: Any, work: Path, tier: str) -> None:
@@ -652,6 +712,134 @@ def listing_stream(j: Judge, r: Any, work: Path, tier: str) -> None:
             if ref is None and o["written"]:
                 ref = o["file_after"]  # the order of listing must not show in the SKR at all
             res.bump("schema-listing:" + ("ascending" if listing == sorted(listing) else "out-of-order"))
+
+
+def file_fault_stream(j: Judge, r: Any, work: Path, tier: str) -> None:
+    """(f) names that do not lead to a usable file, for every file the entry point takes x every source of the name x what
+    the other source names (see the module docstring)."""
+    res = j.res
+    n = 2
+    q1 = ceremony_scenario(r, n, 1)
+    q2 = successor(q1, n)
+    q3 = successor(q2, n)
+    q3.req_id = "req-3"
+    skr: list[bytes] = []
+    for q, scen in enumerate((q1, q2, q3)):
+        o = R.run_ceremony(scen, work, answer="Yes", prev_xml=skr[-1].decode() if skr else None)
+        j.observe(o, {"stream": "honest", "n": n, "quarter": q + 1, "prev": bool(skr)}, None, sc=scen, expect_success=True)
+        if not o["written"]:
+            return
+        skr.append(o["file_after"])
+    p1, p2, p3 = (x.decode() for x in skr)
+    entry_points = (False, True)
+
+    def go(scen: S.Scenario, case: dict[str, Any], baseline: bytes | None, want: bool | None, *, early: bool, dead: bool = False, model: bool = True, **kw: Any) -> None:
+        """want: must succeed / must be refused / None = either the SKR `baseline` or a refusal; early: a refusal precedes the signing
+        stage (no private-key operation); dead: the file ASKED FOR is the unusable one (not one token operation)."""
+        for use_main in entry_points:
+            o = R.run_ceremony(scen, work, answer="Yes", use_main=use_main, **kw)
+            c = dict(case, stream="file-name", n=n, main=use_main)
+            if not o["fault_effective"]:
+                # uid 0 reads and writes whatever the permission bits say: the name is usable after all, nothing to judge
+                res.bump(f"file-name:{case['file']}:{case['name_fault']}: NOT JUDGED — this process (uid {os.geteuid()}) may use a file whatever its permission bits say")
+                note = f"file-name faults by permission bits (unreadable / unwritable) are not effective for uid {os.geteuid()}: those cases were run but not judged"
+                if note not in res.notes:
+                    res.notes.append(note)
+                continue
+            if not model:
+                o.pop("line", None)  # the model has no failing write: judged by the property alone
+            j.observe(o, c, baseline, sc=scen, expect_success=want, expect_no_sign=early, refusal="run succeeded although a file it was asked to use cannot be used")
+            if dead and o["log"]:
+                res.violation("token operations although a file the run was asked to use cannot be loaded", c, key="gate-token-ops:file-name:" + case["gate"], ops=len(o["log"]))
+            res.bump("file-name:" + case["file"] + ":" + case["name_fault"])
+            res.bump("file-name:asked-for-file-is-" + ("unusable: must refuse" if want is False else "usable: must succeed" if want else "usable, configuration names an unusable one: same SKR or bad configuration"))
+
+    # ---- previous SKR (target: the third quarter; right file = SKR 2, stale file = SKR 1) -----------------------------------
+    others = (("nothing", None), ("the-right-file", p2), ("a-stale-file", p1))
+    for kind in R.FILE_FAULTS_IN:
+        for other_tag, other in others:
+            # the command line hands over the broken name; it is the one asked for
+            kw: dict[str, Any] = {"prev_cli_xml": p2, "file_faults": {"prev_cli": kind}}
+            if other is not None:
+                kw["prev_xml"] = other
+            go(q3, {"gate": f"previous-skr:command-line-{kind}:configuration-names-{other_tag}", "file": "previous-skr", "name_fault": kind}, None, False, early=True, dead=True, **kw)
+            # the configuration hands over the broken name; the command line names nothing / the right file / a stale file
+            kw = {"prev_xml": p2, "file_faults": {"prev_cfg": kind}}
+            if other is not None:
+                kw["prev_cli_xml"] = other
+            want: bool | None = False if other_tag != "the-right-file" else (None if kind in R.NOT_A_FILE else True)
+            go(q3, {"gate": f"previous-skr:configuration-{kind}:command-line-names-{other_tag}", "file": "previous-skr", "name_fault": kind}, skr[2], want, early=want is False, dead=other is None, **kw)
+    # an empty string on the command line is no name at all: the configured file is used (the model's pickFile)
+    for other_tag, other in others[1:]:
+        go(q3, {"gate": f"previous-skr:command-line-empty-string:configuration-names-{other_tag}", "file": "previous-skr", "name_fault": "empty-string"}, skr[2], other_tag == "the-right-file", early=other_tag != "the-right-file", prev_cli_xml=p2, prev_xml=other, file_faults={"prev_cli": "empty-string"})
+    # ---- KSR (target: the first quarter; another valid KSR = that of the second quarter) -------------------------------------
+    right, another = C.request_to_xml(q1.request()), C.request_to_xml(q2.request())
+    for kind in R.FILE_FAULTS_IN:
+        for other_tag, kw in (("nothing", {"files_via": "cli-only"}), ("the-right-file", {"files_via": "cli", "cfg_ksr_xml": right}), ("another-ksr", {"files_via": "cli", "cfg_ksr_xml": another})):
+            go(q1, {"gate": f"ksr:command-line-{kind}:configuration-names-{other_tag}", "file": "ksr", "name_fault": kind}, None, False, early=True, dead=True, file_faults={"ksr_cli": kind}, **kw)
+        go(q1, {"gate": f"ksr:configuration-{kind}:command-line-names-nothing", "file": "ksr", "name_fault": kind}, None, False, early=True, dead=True, file_faults={"ksr_cfg": kind})
+        want = None if kind in R.NOT_A_FILE else True
+        go(q1, {"gate": f"ksr:configuration-{kind}:command-line-names-the-right-file", "file": "ksr", "name_fault": kind}, skr[0], want, early=False, files_via="cli", file_faults={"ksr_cfg": kind})
+    # no KSR named anywhere
+    o = R.run_ceremony(q1, work, answer="Yes", files_via="cli-only", file_faults={"ksr_cli": "empty-string"})
+    j.observe(o, {"stream": "file-name", "n": n, "gate": "ksr:named-nowhere", "file": "ksr", "name_fault": "empty-string"}, None, sc=q1, expect_success=False, expect_no_sign=True)
+    # ---- output path: the failure comes AFTER the signing stage (signing operations are expected), nothing may be left anywhere ----
+    for kind in R.FILE_FAULTS_OUT:
+        go(q1, {"gate": f"output:configuration-{kind}:command-line-names-nothing", "file": "output", "name_fault": kind}, None, False, early=False, model=False, file_faults={"out_cfg": kind})
+        go(q1, {"gate": f"output:command-line-{kind}:configuration-names-nothing", "file": "output", "name_fault": kind}, None, False, early=False, model=False, files_via="cli-only", file_faults={"out_cli": kind})
+        go(q1, {"gate": f"output:command-line-{kind}:configuration-names-another-path", "file": "output", "name_fault": kind}, None, False, early=False, model=False, files_via="cli", file_faults={"out_cli": kind})
+        # the command line names a usable path: what the configuration names is not used at all
+        go(q1, {"gate": f"output:configuration-{kind}:command-line-names-a-usable-path", "file": "output", "name_fault": kind}, skr[0], True, early=False, files_via="cli", file_faults={"out_cfg": kind})
+    # ---- the configuration file itself (main() only: ksrsigner() is handed a loaded configuration) ------------------------------
+    entry_points = (True,)
+    for kind in R.FILE_FAULTS_IN:
+        go(q1, {"gate": f"configuration-file:{kind}", "file": "configuration", "name_fault": kind}, None, False, early=True, dead=True, file_faults={"config": kind})
+
+
+def text_stream(j: Judge, r: Any, work: Path, tier: str) -> None:
+    """(t) ceremonies spelled with non-ASCII but legal text in everything that is copied into the SKR."""
+    res = j.res
+    n = 3
+    for name, text in R.TEXT_PROFILES.items():
+        sc = R.apply_text(ceremony_scenario(r, n, 2), text)
+        case0 = {"n": n, "text": name, "ksk_labels": [k["label"] for k in sc.ksks.values()], "zsk_identifiers": [z[0] for z in sc.zsks], "request_id": sc.req_id}
+        base = R.run_ceremony(sc, work, answer="Yes")
+        j.observe(base, dict(case0, stream="text", gate="honest", prev=False), None, sc=sc, expect_success=True)
+        res.bump("text:" + name)
+        if not base["written"]:
+            continue
+        first = base["file_after"]
+        if not any(isinstance(x, dict) and "text" in x for x in res.samples):
+            res.sample({"text": name, "ceremony": case0, "bytes_written": len(first), "non_ascii_bytes": sum(1 for b in first if b > 127)}, limit=8)
+        nx = successor(sc, n)
+        nx.req_id = text.rid("req-2")
+        second = None
+        # the honest successor: the previous SKR is the file just written, named in the configuration / on the command line / both
+        for mode, src, use_main in (("config", {"prev_xml": first.decode()}, False), ("cli", {"prev_cli_xml": first.decode()}, False), ("cli", {"prev_cli_xml": first.decode()}, True), ("config", {"prev_xml": first.decode()}, True)):
+            o = R.run_ceremony(nx, work, answer="Yes", use_main=use_main, **src)
+            j.observe(o, dict(case0, stream="text", gate="honest-successor", prev=True, previous_skr_named_in=mode, main=use_main, request_id=nx.req_id), second, sc=nx, expect_success=True)
+            if o["written"] and second is None:
+                second = o["file_after"]
+        # … and once more: an SKR written by a ceremony that itself read a non-ASCII previous SKR
+        if second is not None:
+            nx2 = successor(nx, n)
+            nx2.req_id = text.rid("req-3")
+            o = R.run_ceremony(nx2, work, answer="Yes", prev_cli_xml=second.decode(), prev_xml=first.decode())
+            j.observe(o, dict(case0, stream="text", gate="honest-successor-of-successor", prev=True, previous_skr_named_in="both", request_id=nx2.req_id), None, sc=nx2, expect_success=True)
+        # the request id of the previous SKR again (fresh bundle ids, timeline continued): the comparison is on the text itself
+        fresh_xml = C.request_to_xml(nx.request())
+        for tag, serial in (("serial-of-previous-skr", None), ("other-serial", 2)):
+            xml = R.rewrite_header(fresh_xml, id=sc.req_id, serial=serial)
+            o = R.run_ceremony(nx, work, answer="Yes", prev_xml=first.decode(), ksr_xml=xml)
+            j.observe(o, dict(case0, stream="text", gate="chain:request-id-reused-alone:" + tag, prev=True), None, sc=nx, ksr_xml=xml, expect_success=False, expect_no_sign=True)
+        # all-or-nothing does not depend on the spelling: a declined and a faulted run
+        o = R.run_ceremony(sc, work, answer="Ja")
+        j.observe(o, dict(case0, stream="text", gate="declined"), first, sc=sc, expect_success=False, expect_no_sign=True)
+        last_sign = max(i for i, rec in enumerate(base["log"]) if rec["op"] == "sign")
+        sc.plan = {last_sign: {"kind": "truncate"}}
+        o = R.run_ceremony(sc, work, answer="Yes")
+        sc.plan = {}
+        j.observe(o, dict(case0, stream="text", gate="fault:last-signature-truncated"), first, sc=sc, expect_success=False)
 
 
 def canon_or_none(xml_bytes: bytes) -> Any:
